@@ -386,12 +386,17 @@ def render_fn(fs, out, unit, log):
             log["rewrites"].append({"rule": "R6", "fn": fs.path, "loop": k, "iter": expr})
         elif kind == "closure":
             pass  # handled below
-        elif kind in ("before", "after", "replace"):
+        elif kind in ("before", "after", "replace", "replace?"):
             m = re.match(r"/(.+)/(?:#(\d+)of(\d+))?\s*(.*)$", arg)
             if not m:
                 raise SystemExit(f"template line {tline}: bad anchor {arg}")
             rx = re.compile(m.group(1), re.S)
             ms = list(rx.finditer(text, body_s, body_e))
+            # `replace?`: optional rewrite -- if the construct it works around is no longer in the text, the text is taken as is
+            # (so that an edit removing the construct is *verified*, not reported as a lost anchor)
+            if kind == "replace?" and len(ms) == 0:
+                log["rewrites"].append({"rule": "adhoc-optional", "fn": fs.path, "from": None, "to": ptxt.strip(), "why": "not applied: construct absent; " + m.group(4)})
+                continue
             # `/re/` must match exactly once; `/re/#KofN` must match exactly N times and selects the K-th (0-based)
             want = int(m.group(3)) if m.group(3) else 1
             if len(ms) != want:
@@ -402,8 +407,10 @@ def render_fn(fs, out, unit, log):
             elif kind == "after":
                 ins(mm.end(), "\n" + ptxt, origin, prio=-1)
             else:
-                ins(mm.start(), ptxt.rstrip("\n"), {"type": "rewrite", "rule": "adhoc", "fn": fs.path, "unit": unit, "tline": tline}, dl=mm.end() - mm.start())
-                log["rewrites"].append({"rule": "adhoc", "fn": fs.path, "from": mm.group(0), "to": ptxt.strip(), "why": m.group(4)})
+                # additive: `\g<N>` in the replacement text re-inserts the verbatim text of capture group N (so a rewrite can wrap real code)
+                rep = mm.expand(ptxt.rstrip("\n")) if "\\g<" in ptxt else ptxt.rstrip("\n")
+                ins(mm.start(), rep, {"type": "rewrite", "rule": "adhoc", "fn": fs.path, "unit": unit, "tline": tline}, dl=mm.end() - mm.start())
+                log["rewrites"].append({"rule": "adhoc", "fn": fs.path, "from": mm.group(0), "to": rep.strip(), "why": m.group(4)})
         else:
             raise SystemExit(f"template line {tline}: unknown fn sub-directive {kind}")
     if body_ins:
